@@ -464,9 +464,14 @@ func (g *queryGen) item(ms *metricSpec, written map[string]string) (node.SelectI
 	}
 }
 
-func (g *queryGen) cond(ms *metricSpec) node.Cond {
+// cond builds a tag condition from tag values of series that have been written (a condition naming a tag value the
+// index has never seen belongs to the tag filtering property, C10).
+func (g *queryGen) cond(ms *metricSpec, written []map[string]string) node.Cond {
+	if len(written) == 0 {
+		return nil
+	}
 	atom := func() node.Cond {
-		s := ms.Series[g.rnd.Intn(len(ms.Series))]
+		s := written[g.rnd.Intn(len(written))]
 		keys := make([]string, 0, len(s))
 		for k := range s {
 			keys = append(keys, k)
@@ -478,7 +483,7 @@ func (g *queryGen) cond(ms *metricSpec) node.Cond {
 		case 0:
 			return node.TagCmp{Key: k, Op: "!=", Values: []string{v}}
 		case 1:
-			o := ms.Series[g.rnd.Intn(len(ms.Series))]
+			o := written[g.rnd.Intn(len(written))]
 			vs := []string{v}
 			if ov, ok := o[k]; ok && ov != v {
 				vs = append(vs, ov)
@@ -589,7 +594,7 @@ func (g *queryGen) query(m *node.Model, dataSlots []int) *node.Query {
 			q.IntervalMs = 25_000
 		}
 		if g.rnd.Intn(3) == 0 {
-			q.Cond = g.cond(ms)
+			q.Cond = g.cond(ms, m.SeriesTags("", ms.Name))
 		}
 		switch g.rnd.Intn(6) {
 		case 0:
